@@ -27,6 +27,7 @@ type HsResult struct {
 	Events           []Event
 	CliErr, SrvErr   string
 	CliN, SrvN       int
+	LastN            [2]int // window of the connection on which each side (client, server) received the peer's message
 	CliConn, SrvConn bool
 	Panic            string
 	Leaked           string
@@ -129,6 +130,7 @@ func RunHs(t *testing.T, sc *HsScenario) *HsResult {
 					if ok {
 						mu.Lock()
 						res.Delivered[1-ep] = true
+						res.LastN[ep] = n // the window of the connection on which the peer's message arrived
 						mu.Unlock()
 						// stay up until the peer has what we sent
 						for k := 0; k < 4000; k++ {
